@@ -29,6 +29,7 @@ THEOREMS = ["JanetModel.Props.C12." + t for t in (
     "replace_all_agrees_with_repeated_match", "replace_agrees_with_repeated_match", "match_attempt_end_in_range",
     "compile_validated_correct", "compiled_entry_points_eq_source",
     "compile_correct", "compile_entry_points_eq_source", "compile_simulation",
+    "backref_flag_unobservable", "backref_flag_unobservable_op", "compiled_backref_flag_certified",
     "lenprefix_leak_breaks_op_eq_den", "decode_sizes_agree")]
 # facts about the CURRENT peg.c (Gen/Peg.lean) that the model relies on; they fail to check on a tree with the defects
 TIE = ["JanetModel.Peg.Tie." + t for t in (
@@ -98,6 +99,8 @@ class Case:
             # the compile model (Peg/Compile.lean: rule cache, keyword references, nested / recursive grammars, constants)
             # is run on EVERY grammar; it answers "-" only for what it explicitly rejects
             L.append((("cmodel", "compile"), "compile %s" % spec))
+            # certificate for `has_backref`: no reachable instruction reads the tag stack (compiled_backref_flag_certified)
+            L.append((("notag", "compile"), "notag %s %s" % (words, consts)))
             for kind in ("op", "den"):
                 for e in (ENTRIES if kind == "op" and not self.noscan else ("match",)):
                     L.append(((kind, e), "%s %s %s %d %s %s %s %d %s%s" % (kind, e, hb, leak, words, consts, T, self.start, A,
@@ -337,6 +340,10 @@ def compare(case):
         # word for word: has_backref, bytecode, constants table; the entry rule is address 0.  "-" = rejected by the model
         if cm != "-" and cm != case.dump + " E0":
             diffs.append(("cmodel", "compile", cm, case.dump + " E0"))
+    nt = case.model.get(("notag", "compile"))
+    if nt is not None and case.dump and case.dump.startswith("B 0 ") and not nt.startswith("T1"):
+        # peg/compile says has_backref = 0 but a reachable instruction reads tags (or the certificate cannot be built)
+        diffs.append(("notag", "compile", "T1", nt))
     dn, op = case.model.get(("den", "match")), case.model.get(("op", "match"))
     if dn is not None and op is not None and dn != op and not (case.leak & 1):
         diffs.append(("den", "match", dn, op))
@@ -679,7 +686,7 @@ def run(ctx, only_cases=None):
         ctx.violation(sig, {"kind": "crash", "case": case_to_json(m), "line": cr["line"], "rc": cr["rc"], "stderr": cr["stderr"]},
                       what="implementation crashed / hung (rc None = timeout) / sanitizer report in peg %s on %s" % (cr["entry"], m.describe()))
     # property-level disagreements first: spec / ref / scan are oracles of the property itself
-    order = {"spec": 0, "ref": 1, "scan": 2, "compile": 3, "op": 4, "den": 5, "validate": 6, "cmodel": 7}
+    order = {"spec": 0, "ref": 1, "scan": 2, "compile": 3, "op": 4, "den": 5, "validate": 6, "cmodel": 7, "notag": 8}
     diffs_all.sort(key=lambda cd: (order[cd[1][0]], peggen.size(cd[0].g) + len(cd[0].text)))
     direct = [cd for cd in diffs_all if cd[1][0] in ("spec", "ref", "scan")]
     seen_sigs = 0
@@ -701,7 +708,7 @@ def run(ctx, only_cases=None):
                             "entry": dd[0][1], "expected": dd[0][2], "observed": dd[0][3], "case": case_to_json(m), "unminimised": case_to_json(c),
                             "model_answers": {"%s/%s" % k: v for k, v in m.model.items()}, "broken": broken},
                       what="peg/%s on %s: implementation gives %s, %s gives %s" % (dd[0][1], m.describe(), dd[0][3], d[0], dd[0][2]))
-    model_only = [cd for cd in diffs_all if cd[1][0] in ("op", "den", "compile", "validate", "cmodel")]
+    model_only = [cd for cd in diffs_all if cd[1][0] in ("op", "den", "compile", "validate", "cmodel", "notag")]
     if model_only:
         c, d = model_only[0]
         broken.append("correspondence %s/%s: %d differing answers, first on %s: model %s, implementation %s" % (d[0], d[1], len(model_only), c.describe(), d[2], d[3]))
@@ -729,6 +736,10 @@ def run(ctx, only_cases=None):
         "compile_model_fraction_of_compiled_grammars": "%d/%d" % (
             sum(1 for c in cases if c.dump and c.model.get(("cmodel", "compile")) == c.dump + " E0"),
             sum(1 for c in cases if c.dump and c.dump.startswith("B "))),
+        "has_backref_0_certified_unobservable": "%d/%d" % (
+            sum(1 for c in cases if c.dump and c.dump.startswith("B 0 ") and c.model.get(("notag", "compile"), "").startswith("T1")),
+            sum(1 for c in cases if c.dump and c.dump.startswith("B 0 "))),
+        "has_backref_1": sum(1 for c in cases if c.dump and c.dump.startswith("B 1 ")),
         "validation_expected": sum(1 for c in cases if getattr(c, "expect_valid", False)),
         "model_timeouts": sum(1 for c in cases if getattr(c, "model_timeout", False)),
         "peg_rule_tie": tie_info,
